@@ -445,7 +445,7 @@ impl Model for M {
 
 fn models(tier: &str) -> Vec<M> {
     let quick = tier == "quick";
-    let enc = WorldCfg { encrypt_handshake: true, tree_ext: false, ..Default::default() };
+    let enc = WorldCfg { encrypt_handshake: true, tree_ext: false, padding: 1, ..Default::default() };
     if quick {
         vec![M { depth: 5, cfg: WorldCfg::default() }, M { depth: 4, cfg: enc }]
     } else {
